@@ -139,6 +139,43 @@ theorem tls13_no_plaintext_alert_after_handshake {S} (P : Prims S) (c : Cfg) (h1
   · exact h20
   · rw [hflag] at hf; cases hf
 
+/-- TLS ≤ 1.2: whatever `recvRecord` accepts was accepted by the decryption dispatch under the
+    header's own content type — the outer layers (length caps, early-data window, limit checks) can
+    only turn an accept into a reject — so the per-path theorems above cover `recvRecord` itself -/
+theorem recvRecord_ok_decrypt {S} (P : Prims S) (c : Cfg) (h13 : c.is13 = false) (rv rv' : Recv S) (h : Rec)
+    (t : UInt8) (p : Bytes) (hacc : recvRecord P c rv h = .ok rv' t p) :
+    decrypt P c rv h = .ok (rv'.st, p) ∧ t = h.typ :=
+  recvRecord_ok_decrypt_aux P c h13 rv rv' h t p hacc
+
+/-- … and the dispatch selects the path from the configuration alone (cipher kind, EtM flag) -/
+theorem decrypt_path {S} (P : Prims S) (c : Cfg) (h13 : c.is13 = false) (rv : Recv S) (hearly : rv.earlyOk = false) (h : Rec) :
+    decrypt P c rv h =
+      (if c.cipher == .aead then decAead P c rv.st h
+       else if c.etm then (match c.cipher with
+          | .null => decEtm P c false rv.st h.typ h.body
+          | _ => decEtm P c true rv.st h.typ h.body)
+       else match c.cipher with
+          | .block => decCbc P c rv.st h.typ h.body
+          | .null => decStream P c false rv.st h.typ h.body
+          | _ => decStream P c true rv.st h.typ h.body) :=
+  decrypt_path_aux P c h13 rv hearly h
+
+/-- a byte string whose first byte is not a content type (read as an SSLv2 record header) is refused
+    with `unexpected_message` as soon as the read state of an SSLv3/TLS connection has a cipher or a
+    MAC: SSLv2 framing cannot be used to reach the SSLv2 decryption code with TLS keys -/
+theorem ssl2_framing_refused (c : Cfg) (hv : ¬ ((c.vmaj = 2 ∧ c.vmin = 0) ∨ (c.vmaj = 0 ∧ c.vmin = 2)))
+    (hprot : c.cipher ≠ .null ∨ c.hasMac = true) : recvSsl2Framed c = some .unexpected_message := by
+  unfold recvSsl2Framed
+  have h1 : ((c.vmaj == 2 && c.vmin == 0) || (c.vmaj == 0 && c.vmin == 2)) = false := by
+    cases h : ((c.vmaj == 2 && c.vmin == 0) || (c.vmaj == 0 && c.vmin == 2))
+    · rfl
+    · simp at h; exact absurd h hv
+  have h2 : (c.cipher != .null || c.hasMac) = true := by
+    rcases hprot with h | h
+    · simp [h]
+    · simp [h]
+  simp [h1, h2]
+
 /-! ## corollaries: the named attacks -/
 
 /-- REPLAY: presenting again the body of an earlier record `j < k` (EtM): accepted only through a
